@@ -18,10 +18,12 @@ LEVEL = "model_checking"
 W = 4
 
 # atom -> string, increasing in i;octet order (RFC 4790: compare the UTF-8 octets), atom 0 = empty string.
-# No '<' and no '/' (the XEP's delimiter weakness is outside the property).
+# Atom 0 may stand in every role but the FORM_TYPE value.  Only "delim" contains '<' and '/': hashes are still compared
+# there, but the "must change" clause is not judged (collisions there are the XEP's own delimiter weakness).
 ALPHABETS = {
     "ascii":  ["", "a", "b", "c", "d"],
-    "case":   ["", "B", "Z", "a", "b"],                    # upper case before lower case
+    "case":   ["", "A", "B", "a", "b"],                    # strings differing only in case; upper case sorts first
+    "delim":  ["", "a", "a/b", "a<b", "b"],                # the XEP's own delimiters inside names and values
     "prefix": ["", "a", "a ", "a!", "aa"],                 # a string before its extensions
     "digits": ["", "10", "2", "A", "_"],                   # not numeric order
     "bmp":    ["", "z", "é", "中", "～"],     # 1, 2, 3, 3 octets
@@ -31,6 +33,47 @@ for _n, _a in ALPHABETS.items():
     _b = [s.encode("utf-8") for s in _a]
     assert _b == sorted(_b) and len(set(_b)) == len(_b), _n
 LT, SL = 1000, 1001
+MULTI_KINDS = ["list-multi", "jid-multi", "text-multi"]
+
+
+def wire_of(info):
+    """XEP-0004 as QXmppDataForm serializes it, applied to the strings the driver was given: the empty value of a
+    single-valued field is not written at all; every member of a multi-valued field is a <value/>, also an empty one."""
+    forms = [[dict(f, vals=([] if (not f.get("multi") and f["vals"] == [""] and f["var"] != "FORM_TYPE") else f["vals"])) for f in fields]
+             for fields in info["forms"]]
+    return dict(info, forms=forms)
+
+
+def value_classes(info):
+    """names of the unusual value classes present in an info set (for signatures)"""
+    c = set()
+    ids = [tuple(x) for x in info["ids"]]
+    if len(set(ids)) < len(ids):
+        c.add("identity:repeated")
+    for x in ids:
+        for comp, v in zip(("category", "type", "lang", "name"), x):
+            if v == "" and comp in ("category", "type"):
+                c.add("identity:empty-" + comp)
+    if "" in info["feats"]:
+        c.add("feature:empty")
+    if len(set(info["feats"])) < len(info["feats"]):
+        c.add("feature:repeated")
+    for fields in info["forms"]:
+        for f in fields:
+            if f["var"] == "FORM_TYPE":
+                continue
+            if f["var"] == "":
+                c.add("field:empty-name")
+            if f.get("multi"):
+                if not f["vals"]:
+                    c.add("multi:no-value")
+                if "" in f["vals"]:
+                    c.add("multi:empty-member")
+                if len(set(f["vals"])) < len(f["vals"]):
+                    c.add("multi:repeated-member")
+            elif f["vals"] == [""]:
+                c.add("single:empty-value")
+    return sorted(c)
 
 
 # ----------------------------------------------------------------------------- reference (XEP-0115 5.1)
@@ -70,22 +113,24 @@ def _arg(st):
     return st["a"] + ("(" + ",".join(f"{k}={json.dumps(a[k], separators=(',', ':'))}" for k in sorted(a)) + ")" if a else "")
 
 
-def _select(behs, rnd, n_emit, n_trans):
+def _select(behs, rnd, n_emit, n_trans, near_len=3):
     """From a tour (one line per transition): one shortest behaviour per state (their maximal ones), every
-    emission transition out of a state at most 2 edits away (deterministic), plus seeded samples of the other
-    emission transitions and of the remaining transitions."""
+    emission transition out of a state at most near_len - 1 edits away (deterministic), plus seeded samples of the
+    other emission transitions and of the remaining transitions (n_trans = None: all of them, deterministic)."""
     per_state, emits_near, emits, others = {}, [], [], []
     for b in behs:
         k = json.dumps(b["key"], sort_keys=True)
         beh = {"steps": b["steps"]}
         if b["steps"][-1]["t"] == "emit":
-            (emits_near if len(b["steps"]) <= 3 else emits).append(beh)
+            (emits_near if len(b["steps"]) <= near_len else emits).append(beh)
         elif k not in per_state:
             per_state[k] = beh
         else:
             others.append(beh)
     tree = vf.maximal_behaviours(list(per_state.values()))
     rnd.shuffle(emits)
+    if n_trans is None:
+        return tree, emits_near + others, emits[:n_emit], [], len(per_state)
     rnd.shuffle(others)
     return tree, emits_near, emits[:n_emit], others[:n_trans], len(per_state)
 
@@ -118,7 +163,7 @@ def run(chk, replay=None):
         raise vf.MachineryError("python reference does not reproduce the XEP-0115 5.2 example")
     # 1. design level.  The generator configurations carry the invariants and action properties too, so one TLC run
     #    per bounded model both checks it exhaustively and exports its transitions.
-    tours = ["Feats"] if replay else ["Mix", "IdsQ" if quick else "Ids", "Feats", "Form"] + ([] if quick else ["Feats5"])
+    tours = ["FormV"] if replay else ["Mix", "IdsQ" if quick else "Ids", "Feats", "Form", "FormV"] + ([] if quick else ["Feats5"])
     jobs = [lambda: vf.tlc_mc("CapsInj.tla", "CapsInj.cfg", workers=1)]
     for t in tours:
         jobs.append(lambda t=t: vf.tlc_gen("CapsGen.tla", f"CapsGen{t}.cfg", keep_prefixes=True, timeout=2400))
@@ -141,7 +186,10 @@ def run(chk, replay=None):
         if replay:
             break
         big = t == "Feats5"
-        tree, near, emits, others, nstates = _select(tour, rnd, n_emit=60 if quick else 1000, n_trans=60 if quick else 2000)
+        if t == "FormV":   # the value-class model: every transition, every emission up to 3 edits away (stable signatures)
+            tree, near, emits, others, nstates = _select(tour, rnd, n_emit=60 if quick else 1000, n_trans=None, near_len=4)
+        else:
+            tree, near, emits, others, nstates = _select(tour, rnd, n_emit=60 if quick else 1000, n_trans=60 if quick else 2000)
         if big:   # the product models are for TLC; replay a seeded sample of their state-covering behaviours
             rnd.shuffle(tree)
             tree = tree[:2000]
@@ -150,36 +198,36 @@ def run(chk, replay=None):
         # alphabets: the feature model under every alphabet; the identity and form models under a rotating one
         # and the one whose order differs between octets and UTF-16 (all of them when thorough); the mixed ones rotating
         for idx, b in enumerate(tree):
-            if t == "Feats" or (t in ("Ids", "Form") and not quick):
+            if t in ("Feats", "FormV") or (t in ("Ids", "Form") and not quick):
                 al = names
             elif t in ("IdsQ", "Form"):
                 al = list(dict.fromkeys([names[idx % len(names)], "nonbmp"]))
             else:
                 al = [names[idx % len(names)]]
             for a in al:
-                behs.append({"alpha": a, "lm1": (idx % 3 == 2), "src": t, "steps": b["steps"]})
+                behs.append({"alpha": a, "mk": MULTI_KINDS[idx % 3], "src": t, "steps": b["steps"]})
         for b in near:
             for a in (["ascii", "nonbmp"] if t == "Feats" else ["ascii"]):
-                behs.append({"alpha": a, "lm1": False, "src": t, "steps": b["steps"]})
+                behs.append({"alpha": a, "mk": "list-multi", "src": t, "steps": b["steps"]})
         for idx, b in enumerate(emits + others):
-            behs.append({"alpha": names[idx % len(names)], "lm1": (idx % 3 == 2), "src": t, "steps": b["steps"]})
+            behs.append({"alpha": names[idx % len(names)], "mk": MULTI_KINDS[idx % 3], "src": t, "steps": b["steps"]})
         gen_stats[cfg] = dict(st, state_covering=len(tree), emission=len(near) + len(emits), other_transitions=len(others))
     if replay:
         behs = []
         for b in vf.read_ndjson(replay):
             if "steps" in b and "alphabet" in b:
-                behs.append({"alpha": b["alphabet"], "lm1": b.get("lm1", False), "src": "replay", "steps": b["steps"]})
+                behs.append({"alpha": b["alphabet"], "mk": b.get("mk", "list-multi"), "src": "replay", "steps": b["steps"]})
     else:
         sim, st = res[-1]
         sim.sort(key=lambda b: json.dumps(b["steps"], sort_keys=True))
         rnd.shuffle(sim)
         sim = sim[:150 if quick else 6000]
         for idx, b in enumerate(sim):
-            behs.append({"alpha": names[idx % len(names)], "lm1": (idx % 3 == 2), "src": "Sim", "steps": b["steps"]})
+            behs.append({"alpha": names[idx % len(names)], "mk": MULTI_KINDS[idx % 3], "src": "Sim", "steps": b["steps"]})
         gen_stats["simulate"] = st
         chk.cov["generation"] = gen_stats
         chk.cov["model_states_visited_by_replay"] = states_visited
-    inp = [{"alpha": ALPHABETS[b["alpha"]], "lm1": b["lm1"], "steps": b["steps"]} for b in behs]
+    inp = [{"alpha": ALPHABETS[b["alpha"]], "mk": b["mk"], "steps": b["steps"]} for b in behs]
     probes = [] if (quick or replay) else [{"name": n, "probe": p} for n, p in PROBES]
     vf.write_ndjson(chk.path("behaviours.ndjson"), inp + probes)
     # 2. replay
@@ -194,6 +242,8 @@ def run(chk, replay=None):
     cur = None
     probe_results = []
     nedit = nemit = 0
+    classes = {}      # (case, step) -> value classes of the info set at that step
+    class_count = {}
     for o in vf.read_ndjson(raw):
         if o["e"] == "Reset":
             idx = int(o["case"][1:]) - 1
@@ -204,6 +254,7 @@ def run(chk, replay=None):
                 cur = None
                 continue
             cur = behs[idx]
+            last_classes = []
             out.append([{"e": "Reset", "case": o["case"],
                          "o": {"ver": w["ver"], "exp": exphash([], ALPHABETS[cur["alpha"]]), "refwire": refhash(w["wire"])}}])
             continue
@@ -217,9 +268,13 @@ def run(chk, replay=None):
         else:
             nedit += 1
             exp = exphash(o["c"], ALPHABETS[cur["alpha"]])
-            if refhash(w["in"]) != exp:      # the spec's Canon and the python reference disagree on one input: the check is broken
+            last_classes = value_classes(w["in"])
+            for c_ in last_classes:
+                class_count[c_] = class_count.get(c_, 0) + 1
+            if refhash(wire_of(w["in"])) != exp:      # the spec's Canon and the python reference disagree on one input: the check is broken
                 raise vf.MachineryError(f"Caps.tla Canon and the python reference disagree for {json.dumps(w['in'])} / {o['c']}")
             o["o"] = {"ver": w["ver"], "exp": exp, "refwire": refhash(w["wire"])}
+        classes[(out[-1][0]["case"], len(out[-1]))] = last_classes
         out[-1].append(o)
     # 4. trace validation, in up to 4 chunks of whole executions side by side
     s = tracepar.tlc_trace_chunks(chk, "CapsTrace.tla", "CapsTrace.cfg", out)
@@ -228,6 +283,7 @@ def run(chk, replay=None):
     chk.cov["traces_validated_against_impl"] = s["cases"]
     chk.cov["trace_lines"] = s["lines"]
     chk.cov["edit_steps_hashed"] = nedit
+    chk.cov["value_classes_hashed"] = dict(sorted(class_count.items()))
     chk.cov["distinct_hashes_observed"] = len({ln["o"]["ver"] for ex_ in out for ln in ex_ if "ver" in ln["o"]}
                                               | {ln["o"]["adv"] for ex_ in out for ln in ex_ if "adv" in ln["o"]})
     chk.cov["presence_emissions_checked"] = nemit
@@ -249,27 +305,41 @@ def run(chk, replay=None):
         chk.sample({"alphabet": b["alpha"], "steps": [_arg(st) for st in b["steps"]]})
     # one violation per (clause, alphabet | emission kind): the shortest failing prefix
     best = {}
+    not_judged = 0
     for v in s["viol"]:
         idx = int(v["case"][1:]) - 1
         b = behs[idx]
+        if v["prop"] == "Change" and b["alpha"] == "delim":
+            not_judged += 1       # two different info sets may have the same string S when names contain '<' or '/'
+            continue
         prefix = [_arg(st) for st in b["steps"][:v["step"]]]
-        key = (v["prop"], b["alpha"] if v["prop"] != "Advertised" else v["e"])
-        cand = (len(prefix), prefix)
+        vc = tuple(classes.get((v["case"], v["step"]), []))
+        # which input class fails: the value classes present, else (ordinary strings) the alphabet
+        key = (v["prop"], v["e"] if v["prop"] == "Advertised" else "", vc, "" if vc else b["alpha"])
+        cand = (len(prefix), prefix, b["alpha"])
         if key not in best or cand < best[key][0]:
             best[key] = (cand, v, idx)
-    chk.cov["violating_executions"] = len({v["case"] for v in s["viol"]})
-    for key in sorted(best):
+    chk.cov["violating_executions"] = len({v["case"] for v in s["viol"]
+                                           if not (v["prop"] == "Change" and behs[int(v["case"][1:]) - 1]["alpha"] == "delim")})
+    chk.cov["change_clause_not_judged_under_delimiter_alphabet"] = not_judged
+    # a failing class set that strictly contains another failing one (whatever the clause) adds nothing
+    failing_sets = {k[2] for k in best if k[2]}
+    for key in list(best):
+        if any(set(fs) < set(key[2]) for fs in failing_sets):
+            del best[key]
+    for key in sorted(best, key=lambda k: (len(k[2]), best[k][0], k)):
         cand, v, idx = best[key]
         b = behs[idx]
-        sig = "C20:%s:%s:%s" % (v["prop"], b["alpha"], ",".join(cand[1]))
+        sig = "C20:%s:%s:[%s]:%s" % (v["prop"], b["alpha"], ",".join(key[2]), ",".join(cand[1]))
         what = {
             "Hash": "verificationString() differs from SHA-1 of the XEP-0115 5.1 canonical string",
             "Wire": "verificationString() differs from the XEP-0115 hash of what the same IQ serializes to",
             "Neutral": "a reordering / repeated feature changed verificationString()",
             "Change": "adding / removing / altering an element left verificationString() unchanged",
             "Advertised": "the <c ver/> the client sent in presence differs from the XEP-0115 hash of its disco#info answer",
-        }[v["prop"]] + f" at step {v['step']} ({v['e']}) (alphabet {b['alpha']}: {ALPHABETS[b['alpha']]})"
-        chk.violation(sig, what, [{"alphabet": b["alpha"], "lm1": b["lm1"], "steps": b["steps"][:v["step"]]}] + by_case.get(v["case"], []))
+        }[v["prop"]] + f" at step {v['step']} ({v['e']}); value classes present: {list(key[2]) or 'none'}; " \
+                        f"multi-valued fields are {b['mk']} (alphabet {b['alpha']}: {ALPHABETS[b['alpha']]})"
+        chk.violation(sig, what, [{"alphabet": b["alpha"], "mk": b["mk"], "steps": b["steps"][:v["step"]]}] + by_case.get(v["case"], []))
         if len(chk.violations) >= 12:
             break
     if r["sanitizer"] and not chk.violations:
@@ -279,7 +349,9 @@ def run(chk, replay=None):
         "alphabet without '<' and '/'; features, FORM_TYPE values, field names and values from disjoint alphabets for global "
         "injectivity (the XEP's own delimiter weakness, XEP-0115 section 8)",
         "sorting is i;octet (RFC 4790) as XEP-0115 5.1 requires",
-        "forms: one extension form with a hidden FORM_TYPE, text-single fields with one non-empty value, list-multi fields with "
-        ">= 1 values; zero-valued / boolean / text-multi fields are outside the quantifier (probes in the thorough tier)",
+        "forms: one extension form with a non-empty hidden FORM_TYPE and distinct field names; fields single-valued (text-single; an "
+        "empty value is not written on the wire) or multi-valued (list-/jid-/text-multi rotating; 0..3 values, empty and repeated "
+        "members); the empty string may stand in every other role; boolean fields and several forms are outside (probes)",
+        "under the alphabet that contains '<' and '/' hashes are compared but the must-change clause is not judged",
         "a presence is judged at the moment it is emitted: the peer asks disco#info immediately",
     ]
